@@ -89,6 +89,12 @@ type ledger struct {
 func runImpl(t vkit.TB, order []string, grace time.Duration, conns map[int]*cconn) (viol string, detail map[string]any, blockedAtStart int) {
 	ctx, cancel := context.WithCancel(context.Background())
 	defer cancel()
+	// every other run, the parent context ends because its DEADLINE passes, not because
+	// it is cancelled (a context of the harness's own whose expiry is triggered by hand)
+	if parentKinds.Add(1)%2 == 0 {
+		dctx := &deadlineCtx{Context: context.Background(), done: make(chan struct{})}
+		ctx, cancel = dctx, dctx.expire
+	}
 	if preCancelled && len(order) > 0 && order[0] == "x" {
 		// the parent context is cancelled before the listener is even constructed
 		cancel()
@@ -334,6 +340,36 @@ func perms(items []string) [][]string {
 }
 
 var listenerSources atomic.Int64
+
+var parentKinds atomic.Int64
+
+// deadlineCtx is a parent context that ends the way context.WithDeadline's does
+// (Err() == context.DeadlineExceeded), at the moment the harness chooses.
+type deadlineCtx struct {
+	context.Context
+	mu   sync.Mutex
+	done chan struct{}
+	err  error
+}
+
+func (d *deadlineCtx) Done() <-chan struct{} { return d.done }
+
+func (d *deadlineCtx) Err() error {
+	d.mu.Lock()
+	defer d.mu.Unlock()
+	return d.err
+}
+
+func (d *deadlineCtx) Deadline() (time.Time, bool) { return time.Now().Add(time.Hour), true }
+
+func (d *deadlineCtx) expire() {
+	d.mu.Lock()
+	defer d.mu.Unlock()
+	if d.err == nil {
+		d.err = context.DeadlineExceeded
+		close(d.done)
+	}
+}
 
 var (
 	splitOnce sync.Once
